@@ -376,6 +376,8 @@ pub enum Op {
     WriteToVec { v: usize },
     LazyWrite { v: usize, raw: bool },
     ConvertToComparable { v: usize },
+    /// Number::compact_encode into the caller's Vec (its io::Write seam); a no-op when the register is not a number
+    NumberEncode { v: usize },
 }
 
 impl Op {
@@ -406,6 +408,7 @@ impl Op {
             Op::LazyWrite { raw: true, .. } => "LazyValue::Raw::write_to_vec",
             Op::LazyWrite { raw: false, .. } => "LazyValue::Value::write_to_vec",
             Op::ConvertToComparable { .. } => "convert_to_comparable",
+            Op::NumberEncode { .. } => "Number::compact_encode",
         }
     }
 
@@ -433,7 +436,8 @@ impl Op {
             | Op::Select { v, .. }
             | Op::WriteToVec { v }
             | Op::LazyWrite { v, .. }
-            | Op::ConvertToComparable { v } => vec![*v],
+            | Op::ConvertToComparable { v }
+            | Op::NumberEncode { v } => vec![*v],
         }
     }
 
@@ -448,7 +452,7 @@ impl Op {
     /// Can argument number `pos` (position in `reads()`) be passed as JSON text?
     pub fn arg_accepts_text(&self, pos: usize) -> bool {
         match self {
-            Op::BuildArray { .. } | Op::BuildObject { .. } | Op::WriteToVec { .. } | Op::LazyWrite { .. } => false,
+            Op::BuildArray { .. } | Op::BuildObject { .. } | Op::WriteToVec { .. } | Op::LazyWrite { .. } | Op::NumberEncode { .. } => false,
             Op::Select { api, .. } => api.accepts_text(),
             _ => pos < 2,
         }
@@ -486,6 +490,7 @@ impl Op {
             Op::WriteToVec { v } => json!({"op": "write_to_vec", "v": v}),
             Op::LazyWrite { v, raw } => json!({"op": "lazy_write", "v": v, "raw": raw}),
             Op::ConvertToComparable { v } => json!({"op": "convert_to_comparable", "v": v}),
+            Op::NumberEncode { v } => json!({"op": "number_compact_encode", "v": v}),
         }
     }
 
@@ -530,6 +535,7 @@ impl Op {
             "write_to_vec" => Op::WriteToVec { v: u("v")? },
             "lazy_write" => Op::LazyWrite { v: u("v")?, raw: b("raw")? },
             "convert_to_comparable" => Op::ConvertToComparable { v: u("v")? },
+            "number_compact_encode" => Op::NumberEncode { v: u("v")? },
             o => return Err(format!("unknown op {o:?}")),
         })
     }
@@ -637,6 +643,18 @@ pub fn call(op: &Op, args: &[Vec<u8>], trees: &[MVal], buf: &mut Vec<u8>, offset
         Op::ConvertToComparable { v } => {
             jsonb::convert_to_comparable(&args[*v], buf);
             LibOut::Wrote(Ok(()))
+        }
+        Op::NumberEncode { v } => {
+            if let jsonb::Value::Number(n) = mval::to_value(&trees[*v]) {
+                let before = buf.len();
+                match n.compact_encode(&mut *buf) {
+                    Ok(len) if buf.len() >= before && len == buf.len() - before => LibOut::Wrote(Ok(())),
+                    Ok(len) => LibOut::Wrote(Err(format!("reported_{len}_bytes_but_buffer_grew_by_{}", buf.len() as i64 - before as i64))),
+                    Err(e) => LibOut::Wrote(Err(err_name(&e))),
+                }
+            } else {
+                LibOut::Wrote(Ok(()))
+            }
         }
     }
 }
